@@ -106,9 +106,10 @@ def gen_ff(g, nblocks=None, uniform_nrexcl=True, itp_p=0.2, multires_p=0.15, rem
                 sec = {"constraints": [{"atoms": [lx, ">" + fy], "params": ["1", str(round(g.uniform(0.3, 0.5), 3))],
                                         "meta": {}}]}
             else:
+                # (one in ten of these bonds exists only under #ifdef FLEXIBLE, without an unguarded twin)
                 sec = {"bonds": [{"atoms": [lx, ">" + fy],
                                   "params": ["1", str(round(g.uniform(0.3, 0.5), 3)), str(g.choice([3000, 4000, 6000]))],
-                                  "meta": {}}]}
+                                  "meta": {"ifdef": "FLEXIBLE"} if g.random() < 0.1 else {}}]}
             extra = {}
             if len(X["atoms"]) >= 2 and g.random() < 0.6:
                 px = X["atoms"][-2]["name"]
